@@ -95,3 +95,14 @@ func VWeightCmp(a, b int) int {
 	}
 	return 0
 }
+
+// VKeeper runs one round of the public-scene keeper (PublicScenes.Update, what its 1 s
+// timer calls) with a table that holds exactly the public scene (cfgId, reqNum), and
+// returns that entry's Spawned counter afterwards.
+func (m *SceneServiceMgr) VKeeper(cfgId, reqNum int32) int32 {
+	ps := m.world.publicScenes
+	sc := &PublicScene{CfgId: cfgId, ReqNum: reqNum}
+	ps.scenes = map[int32]*PublicScene{cfgId: sc}
+	ps.Update()
+	return sc.Spawned
+}
